@@ -48,13 +48,23 @@ def lastOf (tree : List Bytes) : Res Bytes :=
   | some r => .ok r
   | none => .error indexError
 
+/-- what the immutable constructor `CTransaction(vin, vout, nLockTime, nVersion)` accepts; anything
+    else is ValueError: its own `0 <= nLockTime <= 0xffffffff` test and, for the copies
+    `CTxIn.from_txin` makes of mutable inputs, `COutPoint.__init__` (32-byte hash, `n` range) and
+    `CTxIn.__init__` (`nSequence` range).  (Immutable inputs were validated when they were built.) -/
+def ctorValid (t : Tx) : Bool :=
+  decide (t.nLockTime ≤ 0xffffffff) &&
+    t.vin.all (fun i => (i.prevout.hash.length == 32 && decide (i.prevout.n ≤ 0xffffffff)) &&
+      decide (i.nSequence ≤ 0xffffffff))
+
 /-- `CTransaction.GetTxid`: `self.wit != CTxWitness()` compares serialisations (`CTxWitness()`
-    serialises to the empty string) -/
+    serialises to the empty string); the stripped copy goes through the validating constructor -/
 def getTxid (t : Tx) : Res Bytes :=
   match serWitness t.wit with
   | .error e => .error e
   | .ok w =>
-    if w ≠ [] then (serTx t.strip).map hash256
+    if w ≠ [] then
+      (if ctorValid t then (serTx t.strip).map hash256 else .error .valueerr)
     else (serTx t).map hash256
 
 /-- `ImmutableSerializable.GetHash` of a transaction: hash of the full serialisation -/
@@ -127,6 +137,7 @@ def calcWeight (t : Tx) : Res Nat :=
   else if ¬ (t.vout.length > 0) then .error assertionError
   else if witIsNull t.wit then
     (serTx t).map (fun s => s.length * 4)
+  else if !ctorValid t then .error .valueerr        -- stripped = CTransaction(vin, vout, nLockTime, nVersion)
   else
     match serTx t.strip with
     | .error e => .error e
